@@ -292,6 +292,70 @@ Section DFS.
           -- eapply IH; [|exact H]. rewrite <- Efp. apply (inv_push cur d); auto. congruence.
   Qed.
 
+  (* ---- the direct predecessors of the given node are always covered (any Depth) ---- *)
+  Definition Jdirect (st : list frame) (V : list nat) : Prop :=
+    forall p, In p (fp (d_id node)) -> In (d_id p) V \/ In (d_id p) (sids st).
+
+  Lemma dfs_inv2 fuel : forall st V R roots,
+    Inv st V R -> Jdirect st V -> dfs fuel fp limit st V R = Some roots ->
+    exists V', Inv [] V' roots /\ Jdirect [] V'.
+  Proof.
+    induction fuel as [|fuel IH]; intros st V R roots I J H; cbn [dfs] in H; [discriminate|].
+    destruct st as [|[cur d] rest].
+    - injection H as <-. exists V. split; assumption.
+    - assert (Jpop : forall V', (forall v, In v V -> In v V') -> In (d_id cur) V' -> Jdirect rest V').
+      { intros V' Hsub Hc p Hp. destruct (J p Hp) as [Hv | Hs]; [left; auto|].
+        simpl in Hs. destruct Hs as [Hs | Hs]; [left; now rewrite <- Hs | right; exact Hs]. }
+      destruct (mem (d_id cur) V) eqn:Em.
+      + apply mem_In in Em. eapply IH; [| |exact H].
+        * eapply inv_pop_visited; eauto.
+        * apply Jpop; auto.
+      + apply mem_not_In in Em.
+        assert (Jroot : Jdirect rest (d_id cur :: V)).
+        { apply Jpop; [intros v Hv; right; exact Hv | left; reflexivity]. }
+        destruct ((0 <? limit)%Z && (Z.of_nat d =? limit)%Z)%bool eqn:El.
+        * apply andb_true_iff in El. destruct El as (E1 & E2).
+          apply Z.ltb_lt in E1. apply Z.eqb_eq in E2.
+          eapply IH; [| |exact H]; [apply (inv_root cur d); auto | exact Jroot].
+        * assert (Hnl : ~ ((0 < limit)%Z /\ Z.of_nat d = limit)).
+          { intros (E1 & E2). apply Z.ltb_lt in E1. apply Z.eqb_eq in E2.
+            rewrite E1, E2 in El. discriminate. }
+          destruct (fp (d_id cur)) as [|p0 ps] eqn:Efp.
+          -- eapply IH; [| |exact H]; [apply (inv_root cur d); auto | exact Jroot].
+          -- eapply IH; [| |exact H].
+             ++ rewrite <- Efp. apply (inv_push cur d); auto. congruence.
+             ++ intros p Hp. destruct (Jroot p Hp) as [Hv | Hs]; [left; exact Hv|].
+                right. apply sids_In in Hs. destruct Hs as (x & k & Hx & <-).
+                apply sids_In. exists x, k. split; auto. apply push_preds_In. left. exact Hx.
+  Qed.
+
+  Lemma roots_cover_direct_preds fuel roots :
+    find_roots_fp fuel fp limit node = Some roots ->
+    forall p, In p (fp (d_id node)) -> exists r, In r roots /\ reach (d_id p) (d_id r).
+  Proof.
+    unfold find_roots_fp. destruct fuel as [|fuel]; [discriminate|]. cbn [dfs]. simpl mem.
+    assert (E0 : ((0 <? limit)%Z && (Z.of_nat 0 =? limit)%Z)%bool = false).
+    { destruct (0 <? limit)%Z eqn:E1; auto. apply Z.ltb_lt in E1.
+      destruct limit; simpl; auto; lia. }
+    rewrite E0. intros H p Hp.
+    destruct (fp (d_id node)) as [|p0 ps] eqn:Efp; [contradiction|].
+    assert (I1 : Inv (push_preds (p0 :: ps) 1 [d_id node] []) [d_id node] []).
+    { rewrite <- Efp. apply (inv_push node 0 [] [] []).
+      - apply inv_init.
+      - intros [].
+      - intros (E1 & E2). apply Z.ltb_lt in E1. simpl in E2. rewrite <- E2 in E1. discriminate.
+      - rewrite Efp. discriminate. }
+    assert (J1 : Jdirect (push_preds (p0 :: ps) 1 [d_id node] []) [d_id node]).
+    { intros q Hq. rewrite Efp in Hq.
+      destruct (in_dec Nat.eq_dec (d_id q) [d_id node]) as [Hin | Hn]; [left; exact Hin|].
+      right. apply sids_In. exists q, 1. split; auto. apply push_preds_In. right. auto. }
+    destruct (dfs_inv2 fuel _ _ _ _ I1 J1 H) as (V' & I & J).
+    assert (Hp' : In p (fp (d_id node))) by (rewrite Efp; exact Hp).
+    destruct (J p Hp') as [Hv | []].
+    destruct (iF _ _ _ I _ Hv) as (z & Hr & [Hz | ([] & _)]).
+    apply in_map_iff in Hz. destruct Hz as (r & <- & Hin). exists r. auto.
+  Qed.
+
   (* everything the loop can return *)
   Lemma find_roots_inv fuel roots :
     find_roots_fp fuel fp limit node = Some roots -> exists V, Inv [] V roots.
@@ -1570,4 +1634,15 @@ Proof.
   apply (dfs_ef_fuel _ _ (find_preds s fs)) in H; [|intros x k0 ps k'; apply find_preds_e_ok].
   destruct (find_roots_terminates s fs limit node n Hc Hn) as (roots & Hr).
   unfold find_roots, find_roots_fp in Hr. congruence.
+Qed.
+
+(* any Depth (also d = 1): every followed direct predecessor of the given node lies under a root,
+   so with the copy-closure fact the graphs of all direct predecessors / referrers are copied *)
+Lemma find_roots_direct_preds s fs rank limit node fuel roots :
+  acyclic_source s rank ->
+  find_roots fuel s fs limit node = Some roots ->
+  forall p, In p (find_preds s fs (d_id node)) -> exists r, In r roots /\ anc s fs (d_id p) (d_id r).
+Proof.
+  intros Hac H. exact (roots_cover_direct_preds (find_preds s fs) limit node rank
+                         (find_preds_rank s fs rank Hac) fuel roots H).
 Qed.
